@@ -99,7 +99,7 @@ type authOp struct {
 	C, S   int
 	Seed   uint32 `json:"seed,omitempty"`
 	Tail   int    `json:"tail,omitempty"`
-	N      int    `json:"n,omitempty"`   // trunc length / corrupt offset / garbage length
+	N      int    `json:"n,omitempty"`    // trunc length / corrupt offset / garbage length
 	SrvC   int    `json:"srvc,omitempty"` // server-issued salt for key (SrvC, SrvS); -1 = none
 	SrvS   int    `json:"srvs,omitempty"`
 	Salt   []byte `json:"salt,omitempty"`
@@ -295,12 +295,12 @@ func cAuth(ctx *Ctx, prop string) {
 				}
 			}
 			conn := &byteConn{r: bytes.NewReader(input), remote: ipOfN(op.IP)}
-			id, _, cerr := auth(conn)
-			st := ""
-			if cerr != nil {
-				st = cerr.Status
-			}
+			id, st, panicked := callAuth(auth, conn)
 			code := statusCode(st)
+			if panicked != "" {
+				code = 66
+				ctx.Monitor("C01/authenticator-panic", "the authenticator panicked: "+panicked, map[string]interface{}{"cfg": cur, "ops": ops, "op": op})
+			}
 			ctx.Count("status:" + map[int]string{0: "OK", 1: "ERR_CIPHER", 2: "ERR_REPLAY_SERVER", 3: "ERR_REPLAY_CLIENT", 8: "other"}[code])
 			ctx.Count("kind:" + op.Kind)
 			if code == 0 {
@@ -367,8 +367,23 @@ func cAuth(ctx *Ctx, prop string) {
 	}
 }
 
+// callAuth runs the real authenticator; a panic of the implementation is an observation.
+func callAuth(auth service.StreamAuthenticateFunc, conn *byteConn) (id, status, panicked string) {
+	defer func() {
+		if r := recover(); r != nil {
+			panicked = fmt.Sprint(r)
+		}
+	}()
+	i, _, cerr := auth(conn)
+	if cerr != nil {
+		return i, cerr.Status, ""
+	}
+	return i, "", ""
+}
+
 func orderTerm(cl service.CipherList) string {
 	var es []string
+	defer func() { recover() }()
 	for _, e := range service.VerifCipherListOrder(cl) {
 		es = append(es, fmt.Sprintf("(%s, %d)", cBytes([]byte(e.ID)), nOfIPString(e.LastClientIP)))
 	}
